@@ -599,3 +599,23 @@ for _m in [
     _ISET.append(_sp)
 INDEXED_SET['methods'] = _ISET
 SPECS['C11'] = SPECS['C11'] + _ISET
+# --- round 3e: C06, the quoting functions of boltons.urlutils (harness/py2lean_c06.py: spec key `translator`;
+# notes/SRCTIE.md section "Round 3e: C06").  A str is the list of its code points, a bytes the list of its bytes (`List Nat`:
+# the conventions of C06/Model.lean).  `c06.maps` / `c06.sets` / `c06.hexmaps`: module-level lookup tables -> their
+# regenerated Lean tables in Generated/C06_UrlTables.lean (written by the C06 regen hook from the module under test);
+# `c06.covers`: map -> the sets whose members are all keys of it (checked on the module under test on every run; kernel-
+# checked on the regenerated tables by C06.src_delims_in_maps).  `unicodedata.normalize('NFC', .)` is the parameter `nfc`.
+_C06_MAPS = {'_PATH_PART_QUOTE_MAP': 'pathMap', '_QUERY_PART_QUOTE_MAP': 'queryMap',
+             '_FRAGMENT_QUOTE_MAP': 'fragmentMap', '_USERINFO_PART_QUOTE_MAP': 'userinfoMap'}
+_C06_SETS = {'_PATH_DELIMS': 'pathDelims', '_QUERY_DELIMS': 'queryDelims', '_FRAGMENT_DELIMS': 'fragmentDelims',
+             '_USERINFO_DELIMS': 'userinfoDelims'}
+_C06_CFG = {'maps': _C06_MAPS, 'sets': _C06_SETS, 'hexmaps': {'_HEX_CHAR_MAP': 'hexMap'},
+            'covers': {m: sorted(_C06_SETS) for m in _C06_MAPS}}
+_C06 = [
+    {'module': 'boltons.urlutils', 'qualname': 'quote_%s_part' % _c, 'lean_name': 'quote_%s_part' % _c,
+     'params': {'text': 'Str', 'full_quote': 'Bool'}, 'kind': 'function', 'result': 'Str',
+     'tie_theorem': 'C06.src_quote_%s_part_eq_model' % _c, 'translator': 'py2lean_c06', 'gen_file': 'urlutils_quote',
+     'c06': _C06_CFG}
+    for _c in ('path', 'query', 'fragment', 'userinfo')
+]
+SPECS['C06'] = _C06
